@@ -551,6 +551,29 @@ func (w *World) registerStd() {
 			if r, ok := e.symSprintf(format, args); ok {
 				return r
 			}
+			// "<literal>%d<literal>" of one symbolic integer: an abstract string that is
+			// equal to another one of the same format exactly when the numbers are equal
+			// (decimal notation is injective). The number is kept as a mathematical
+			// integer: a 65-bit vector (sign- or zero-extended by the operand's type) in
+			// bv mode, the Int term in lia mode.
+			if strings.Count(format, "%") == 1 && strings.Count(format, "%d")+strings.Count(format, "%v") == 1 && len(args) == 1 {
+				if iv, ok := args[0].(IfaceV); ok {
+					if t, isT := iv.V.(*Term); isT {
+						if bt, isB := iv.T.Underlying().(*types.Basic); isB && bt.Info()&types.IsInteger != 0 {
+							val := t
+							if t.S.K == KBV {
+								if bt.Info()&types.IsUnsigned != 0 {
+									val = e.tb.ZExt(65, t)
+								} else {
+									val = e.tb.SExt(65, t)
+								}
+							}
+							// %v of an integer prints as %d does
+							return &StrV{Abs: &absStr{Kind: "fmtint", Layout: strings.Replace(format, "%v", "%d", 1), T: val}}
+						}
+					}
+				}
+			}
 			e.ooe("fmt.Sprintf(%q) with symbolic arguments", format)
 		}
 		msg, _ := e.sprintf(format, args)
